@@ -24,13 +24,13 @@ const Mod = "github.com/libp2p/go-libp2p/"
 // Ctx is the loaded, type-checked and SSA-lowered program.
 type Ctx struct {
 	callersOf map[*ssa.Function][]*ssa.Function
-	RepoDir string
-	Fset    *token.FileSet
-	Pkgs    []*packages.Package // packages of the main module (non-test)
-	byPath  map[string]*packages.Package
-	allPkgs map[string]*packages.Package // every loaded package incl. dependencies
-	Prog    *ssa.Program
-	SSAPkgs map[string]*ssa.Package
+	RepoDir   string
+	Fset      *token.FileSet
+	Pkgs      []*packages.Package // packages of the main module (non-test)
+	byPath    map[string]*packages.Package
+	allPkgs   map[string]*packages.Package // every loaded package incl. dependencies
+	Prog      *ssa.Program
+	SSAPkgs   map[string]*ssa.Package
 	// every source function of the main module, including function literals
 	Fns        []*ssa.Function
 	fnByKey    map[string]*ssa.Function
